@@ -4,7 +4,7 @@ from ..px import const, is_const, is_agg, agg_get, mk_binop, TY, fmt_term
 from .. import px as P
 from .. import facts as F
 from .common import (where, short, final_read, self_field, entry_field, impl_fn, inherent_fn, poll_shape, cons_zone,
-                     aggregates, calls_named, method_name)
+                     aggregates, calls_named, method_name, poll_shape_on)
 
 
 def find_exactlen(ctx):
@@ -64,7 +64,7 @@ def exactlen_rows(ctx):
                 if rv in ("Ok", "Err"):
                     inner_kind = rv
                     d = ("payload", res, rv, "0")
-        out_kind, payload = poll_shape(o.value)
+        out_kind, payload = poll_shape_on(o, o.value)
         Bf = self_field(ctx, o, budget)
         rows.append({"o": o, "kind": "return", "inner": inner_kind, "d": d, "out": out_kind, "payload": payload, "budget_after": Bf,
                      "B": B, "poll_ev": pe[0]})
